@@ -7,6 +7,7 @@ pub mod beans;
 pub mod coroutine;
 pub mod queues;
 pub mod sched;
+pub mod tasks;
 
 #[derive(Clone, Copy, Debug, PartialEq, Eq)]
 pub enum Tier {
@@ -37,6 +38,9 @@ pub fn all() -> Vec<&'static Scenario> {
     v.push(&coroutine::LOCAL_SCENARIO);
     v.push(&beans::SCENARIO);
     v.push(&sched::SCENARIO);
+    v.push(&tasks::POOL);
+    v.push(&tasks::POOL_PRIO);
+    v.push(&tasks::RT);
     v
 }
 
